@@ -6,7 +6,7 @@ MODULE = "DrandProofs.C16"
 THEOREMS = ["Drand.Time.c16_current_unique", "Drand.Time.c16_next", "Drand.Time.c16_next_before_genesis",
             "Drand.Time.c16_strict_mono", "Drand.Time.c16_round0_is_genesis",
             "Drand.Time.c16_time_of_round_refines", "Drand.Time.c16_time_of_round_exact",
-            "Drand.Time.c16_next_round_refines", "Drand.Time.c16_current_round_refines", "Drand.Time.c16_float_floor"]
+            "Drand.Time.c16_next_round_refines", "Drand.Time.c16_current_round_refines", "Drand.Time.c16_float_floor", "Drand.Time.tie_time_calls"]
 TRUSTED = ["Lean 4 kernel; axioms per theorem listed under coverage.axioms",
            "go2lean constants: timeBufferBits, the +k of the round-limit shift (regenerated every run)",
            "correspondence harness engine 'time' calling common.TimeOfRound/NextRound/CurrentRound in-process",
@@ -67,6 +67,8 @@ def gen_ops(rng, tier):
         # random 64-bit rounds
         r = rng.next() >> rng.below(64)
         ops.append(f"tor {p} {g} {r}")
+    # the HTTP layer derives the same schedule (handler/http dateOfRound): mirror every `tor` op as a `date` op
+    ops += ["date" + o[3:] for o in ops if o.startswith("tor ")][:: (1 if big else 3)]
     return ops
 
 
@@ -74,15 +76,17 @@ def oracle(op, out):
     """C16 stated directly on the implementation's answer, in exact integer arithmetic."""
     f = op.split()
     try:
-        if f[0] == "tor":
+        if f[0] in ("tor", "date"):
             p, g, r = int(f[1]), int(f[2]), int(f[3])
             v = int(out)
             if v == ERR:
                 return None
             if v != exact_tor(p, g, r):
-                return f"TimeOfRound({p}s,{g},{r}) = {v}: neither the exact time {exact_tor(p, g, r)} nor the documented error value"
+                return f"{'TimeOfRound' if f[0] == 'tor' else 'http dateOfRound'}({p}s,{g},{r}) = {v}: neither the exact time {exact_tor(p, g, r)} nor the documented error value"
             if v < 0:
                 return "negative time"
+            if v > ERR:
+                return f"TimeOfRound({p}s,{g},{r}) = {v} is above the documented error value {ERR}: too large to schedule (time.Unix of it overflows), the error value must be returned"
         elif f[0] == "cur":
             now, p, g = int(f[1]), int(f[2]), int(f[3])
             r = int(out)
